@@ -5,3 +5,4 @@ CONSTANTS
   Stride = 5
   Pairs = 40
   Randoms = 60
+  NBombs = 3
